@@ -223,7 +223,10 @@ func init() {
 		c.ruleMapOrder()
 		c.ruleNoNondet()
 		c.ruleConfigWiring()
-	}, Explanation: "No goroutine, channel, atomic or WaitGroup in product code; package-level state is written only at initialisation, except the configuration cache written once inside sync.Once.Do and read after it; every object shared between concurrently running actions (package-level matchers/regexps/tables, the annotation result, the ignore set, the configuration, imported facts) is only read - write effects computed on the callee bodies including the Aho-Corasick dependency (Contains is read-only, Match is not); the body of every range over a map is order-independent accumulation; no clock, randomness, pointer formatting, and no environment read outside package config."})
+		// positions of different files are ordered by parse scheduling: a decision that assumes an insertion order
+		// of markers differs between runs
+		c.only([]string{"LOOP-COMPLETE"}, func() { c.ruleIgnoreSetContains() })
+	}, Explanation: "No goroutine, channel, atomic or WaitGroup in product code; package-level state is written only at initialisation, except the configuration cache written once inside sync.Once.Do and read after it; every object shared between concurrently running actions (package-level matchers/regexps/tables, the annotation result, the ignore set, the configuration, imported facts) is only read - write effects computed on the callee bodies including the Aho-Corasick dependency (Contains is read-only, Match is not); the body of every range over a map is order-independent accumulation; no clock, randomness, pointer formatting, and no environment read outside package config; no loop of IgnoreSet.Contains is left early without a match, so the answer does not depend on the order in which the files of a package were registered in the FileSet."})
 	registerProp(&propDef{ID: "C12", Rules: func(c *Ctx) {
 		c.ruleWalkState("immutable", "constructor", "testonly", "packageonly")
 		c.ruleWalkRoot("immutable", "constructor", "testonly", "packageonly")
